@@ -14,8 +14,9 @@ every node (multipart nodes: several slots, address = head slot) and the chains 
   R6_address                                 `Address.new` packs (offset, tier) injectively into the number the heap uses
   R6_init                                    the empty column represents the empty heap
   R6_claim                                   `claim_entries(n)` on a tier: LIFO pop of THAT tier's free list, then fresh slots
-  R6_plan_is_abstract_plan                   `claim_tree_values` (per tier parent-first) = abstract `planRefs` on the supply of
-                                             the claimed addresses read in push order
+  R6_plan_is_abstract_plan / R6_claim_tree   `claim_tree_values` (per tier parent-first) = abstract `planRefs` on the supply of
+                                             the claimed addresses read in push order; the whole claim phase keeps `Rep` with
+                                             the SAME heap
   R6_newValue / R6_newValue_tier             NewValue at a claimed address = `nodes.set a (some n)`, reads back, `WriteOk`
                                              discharged by the tier `claim_node` selects
   R6_incRef                                  IncrementReference = `incRef`
@@ -33,7 +34,7 @@ Root values on `ref_counted` columns (counter in the slot: `write_inc_ref` / `wr
 replacement of a live root are executed by the model and compared with the real column (harness `mtphys`) but have no
 simulation theorem here (R5 treats stored counters for hash columns).
 -/
-import Pdb.Proofs.RefineMt5
+import Pdb.Proofs.RefineMt6
 
 namespace Pdb.MultiTreePhys
 open Pdb.Gen Pdb.ValueTable Pdb.MultiTree
@@ -108,6 +109,33 @@ theorem R6_claim {p : PCol} {h : Heap Key Bytes} {ly : Layout} (r : Rep p h ly) 
                     List.range' (p.vt tier).filled (n - (ly.free tier).length))) } ∧
       t'.filled = (p.vt tier).filled + (n - (ly.free tier).length) ∧ SameCfg (p.vt tier) t' :=
   sim_claim p h ly r tier n hb
+
+/-- R6_claim_tree: the claim phase of `commit_changes` for one InsertTree (`claim_tree_values`): nothing but claims happens
+    (the same heap `h` is represented, slots claimed before stay claimed), the root node carries the tree's data, and the
+    assembled node changes ARE the abstract plan `planRefs` of C10 run on the claimed addresses in push order - so the change
+    set queued by the physical commit is a change set of the C10 transaction model (`C10T_*` hold for every supply). -/
+theorem R6_claim_tree {p : PCol} {h : Heap Key Bytes} {ly : Layout} (r : Rep p h ly) (t : NewNode Bytes)
+    (hb : ∀ tier, (p.vt tier).filled +
+      ((tierCounts (tiersRefs p.isRc t.children)).map Prod.snd).sum ≤ 2 ^ 56) :
+    ∃ p' root chs ly', physClaimTree p t = .ok (p', root, chs) ∧ Rep p' h ly' ∧ p'.variant = p.variant ∧
+      root.data = t.data ∧
+      planRefs (K := Key) p.isAppendOnly (newAddrs chs) t.children = (chs, [], root.children) ∧
+      (∀ tier o, o ∈ ly.claimed tier → o ∈ ly'.claimed tier) :=
+  sim_claimTree p h ly r t hb
+
+/-- a tree with two new nodes of different tiers below the root, on the empty column -/
+def exTree : NewNode Bytes :=
+  ⟨[1], .cons (.new [7, 7] (.cons (.new (List.replicate 100 3) .nil) .nil)) .nil⟩
+
+set_option maxRecDepth 100000 in
+example : ∃ p' root chs ly', physClaimTree (PCol.init .plain) exTree = .ok (p', root, chs) ∧
+    Rep p' (Heap.empty : Heap Key Bytes) ly' ∧ root.data = [1] := by
+  obtain ⟨p', root, chs, ly', h1, h2, _, h4, _⟩ := R6_claim_tree (R6_init .plain) exTree (by
+    intro tier
+    rw [init_filled]
+    have : ((tierCounts (tiersRefs (PCol.init .plain).isRc exTree.children)).map Prod.snd).sum = 2 := by decide
+    rw [this]; decide)
+  exact ⟨p', root, chs, ly', h1, h2, h4⟩
 
 /-- R6_plan_is_abstract_plan: the node changes `claim_tree_values` assembles (slots assigned per tier, parent before
     children) are exactly what the abstract `planRefs` of C10 assembles from ONE supply: the claimed addresses in push
@@ -356,6 +384,7 @@ open Pdb.MultiTreePhys
 #print axioms R6_slot_inv
 #print axioms R6_claim
 #print axioms R6_plan_is_abstract_plan
+#print axioms R6_claim_tree
 #print axioms R6_newValue
 #print axioms R6_newValue_tier
 #print axioms R6_incRef
